@@ -23,7 +23,7 @@ def gen(rng, tier) -> str:
     sh = rng.sample(SHAPES, 3)
     for i, s in enumerate(sh):
         steps.append(f"A|T{i}|FloatTensor,0,{s}")
-    kinds = {"p1": rng.choice(["fresh", "fresh", "inst"]), "p2": "long", "p3": rng.choice(["bad", "bad", "badfalsy", "badstr"]), "p4": "falsy"}
+    kinds = {"p1": rng.choice(["fresh", "fresh", "inst", "unhash"]), "p2": "long", "p3": rng.choice(["bad", "bad", "badfalsy", "badstr", "baddict"]), "p4": "falsy"}
     for pid, kind in kinds.items():
         steps.append(f"V|{pid}|{kind}|{rng.choice(['', 'k:3', 'k:3;n:4', 'a:2;k:3', 'z:9', 'k:2;n:4', 'k:3;n:6', 'k:0', 'k:0;n:1', 'a:0;k:3'])}")
     fns = {}
@@ -135,13 +135,13 @@ def _expected(line: str):
             p = pid[5:] if pid.startswith("self:") else pid
             if pid == "-":
                 scope = {}
-            elif kind.get(p) in ("fresh", "long", "falsy"):
+            elif kind.get(p) in ("fresh", "long", "falsy", "inst", "unhash"):
                 scope = cur[p]
                 if scope is UNKNOWN:
                     exp.append(("call", None))
                     body_update(fid, None)
                     continue
-            elif kind.get(p) in ("bad", "badfalsy", "badstr"):
+            elif kind.get(p) in ("bad", "badfalsy", "badstr", "baddict"):
                 exp.append(("call", "not-a-provider"))   # an object that does not implement the protocol
                 continue
             else:
